@@ -65,6 +65,7 @@ def search(ctx):
 
     r = rng("c08-search")
     g = B.Gen(r, exotic=False, pipe_both=False, p_ask=0.3, p_deny=0.1)
+    g.p_plain_list = 0.3
     n = ctx.scale(250, 8000) * (5 if ctx.broken else 1)
     stats = collections.Counter()
     vios = []
